@@ -1,6 +1,7 @@
 package main
 
 import (
+	"bytes"
 	"fmt"
 	"math"
 
@@ -29,7 +30,7 @@ func (c12) Assumptions() []string {
 	return []string{"reduced scope: the Read* function of the same tree is the reference for what the reader accepts (C05/C04/C06/C13 own that); C12 decides only the store/no-store/offset behaviour around it"}
 }
 func (c12) Required(tier string) []string {
-	return []string{"T-prior", "null-with-nonzero-prior", "error-with-nonzero-prior", "success-overwrites-prior", "near-miss-null", "null-behind-whitespace", "dirty-scratch", "scratch-reused-across-decodes", "prefix-then-null"}
+	return []string{"T-prior", "null-with-nonzero-prior", "error-with-nonzero-prior", "success-overwrites-prior", "near-miss-null", "null-behind-whitespace", "dirty-scratch", "scratch-reused-across-decodes", "prefix-then-null", "prior-derived-from-the-input"}
 }
 
 var decodeFns = []string{"DecodeBool", "DecodeFloat64", "DecodeInt64", "DecodeInt32", "DecodeInt", "DecodeUint64", "DecodeUint32", "DecodeUint", "DecodeString"}
@@ -72,7 +73,12 @@ func genDecodeInput(r *Rand, fn string) Doc {
 	case 1:
 		return docOf([]byte(nulls[r.Intn(len(nulls))]), "null")
 	case 2:
-		return docOf([]byte(near[r.Intn(len(near))]), "near-miss-null")
+		s := near[r.Intn(len(near))]
+		if len(s) < 4 && s == "null"[:len(s)] {
+			// a null that has only partly arrived; the rest may sit right behind the input
+			return docCut(r, []byte("null"), []byte(s), "near-miss-null")
+		}
+		return docOf([]byte(s), "near-miss-null")
 	case 3:
 		return docOf([]byte(wrong[r.Intn(len(wrong))]), "wrong-type")
 	case 4:
@@ -92,7 +98,13 @@ func (c12) Gen(r *Rand, sc *Scenario, tier string) {
 	for i := 0; i < nops; i++ {
 		fn := decodeFns[r.Intn(len(decodeFns))]
 		sc.Docs = append(sc.Docs, genDecodeInput(r, fn))
-		ops = append(ops, Op{Kind: fn, Doc: i, B: r.Intn(41)})
+		op := Op{Kind: fn, Doc: i, B: r.Intn(41)}
+		if r.Chance(1, 5) {
+			// T-prior, correlated: the target already holds something derived from the input that is
+			// about to be decoded (1 its raw text, 2 the very value, 3 the value with the other sign of zero / case)
+			op.C = r.Range(1, 3)
+		}
+		ops = append(ops, op)
 	}
 	sc.Tasks = [][]Op{ops}
 }
@@ -110,7 +122,7 @@ func (c12) Exec(sc *Scenario, st *Stats) *Violation {
 	if seed == 0 {
 		seed = 1
 	}
-	tg := &targets{b: true, f: float64(seed) + 0.25, i64: -int64(seed), i32: int32(seed), i: -seed * 3, u64: uint64(seed) << 20, u32: uint32(seed), u: uint(seed) * 7, s: fmt.Sprintf("prior-%d", seed)}
+	tg := &targets{b: seed%3 != 0, f: float64(seed) + 0.25, i64: -int64(seed), i32: int32(seed), i: -seed * 3, u64: uint64(seed) << 20, u32: uint32(seed), u: uint(seed) * 7, s: fmt.Sprintf("prior-%d", seed)}
 	if seed%2 == 0 {
 		tg.f = math.Copysign(0, -1) // -0: a store of +0 is visible
 	}
@@ -118,6 +130,10 @@ func (c12) Exec(sc *Scenario, st *Stats) *Violation {
 	for oi, op := range sc.Tasks[0] {
 		d := sc.Docs[op.Doc]
 		data, ref := d.Bytes(), d.Bytes()
+		if op.C != 0 {
+			correlatePrior(tg, op.Kind, op.C, d.Bytes())
+			st.probe("prior-derived-from-the-input")
+		}
 		prior := *tg
 		prior.s = forcedCopy(tg.s) // a target that aliases the scratch buffer must not fool the comparison
 		if op.Kind == "DecodeString" && op.B != 0 {
@@ -256,6 +272,71 @@ func (c12) Exec(sc *Scenario, st *Stats) *Violation {
 		}
 	}
 	return nil
+}
+
+// correlatePrior puts into the target of fn a value derived from the input the next call will see.
+func correlatePrior(tg *targets, fn string, mode int, data []byte) {
+	defer func() { recover() }() // readers under test may panic on odd input; the prior then stays as it was
+	switch fn {
+	case "DecodeString":
+		i := skipWS(data, 0)
+		switch mode {
+		case 1: // the raw, still escaped text between the quotes (up to the last quote if the token is broken)
+			if i < len(data) && data[i] == '"' {
+				end, ok := scanString(data, i)
+				if ok {
+					tg.s = string(data[i+1 : end-1])
+				} else if j := bytes.LastIndexByte(data, '"'); j > i {
+					tg.s = string(data[i+1 : j])
+				} else {
+					tg.s = string(data[i+1:])
+				}
+			}
+		case 2:
+			if v, _, err := rjson.ReadString(append([]byte(nil), data...), nil); err == nil {
+				tg.s = forcedCopy(v)
+			}
+		case 3:
+			if v, _, err := rjson.ReadString(append([]byte(nil), data...), nil); err == nil {
+				tg.s = forcedCopy(v) + "x"
+			}
+		}
+	case "DecodeFloat64":
+		if v, _, err := rjson.ReadFloat64(append([]byte(nil), data...)); err == nil {
+			tg.f = v
+			if mode == 3 {
+				tg.f = -v // for zeros: the other sign, which compares equal
+			}
+		}
+	case "DecodeBool":
+		if v, _, err := rjson.ReadBool(append([]byte(nil), data...)); err == nil {
+			tg.b = v != (mode == 3)
+		}
+	case "DecodeInt64":
+		if v, _, err := rjson.ReadInt64(append([]byte(nil), data...)); err == nil {
+			tg.i64 = v
+		}
+	case "DecodeInt32":
+		if v, _, err := rjson.ReadInt32(append([]byte(nil), data...)); err == nil {
+			tg.i32 = v
+		}
+	case "DecodeInt":
+		if v, _, err := rjson.ReadInt(append([]byte(nil), data...)); err == nil {
+			tg.i = v
+		}
+	case "DecodeUint64":
+		if v, _, err := rjson.ReadUint64(append([]byte(nil), data...)); err == nil {
+			tg.u64 = v
+		}
+	case "DecodeUint32":
+		if v, _, err := rjson.ReadUint32(append([]byte(nil), data...)); err == nil {
+			tg.u32 = v
+		}
+	case "DecodeUint":
+		if v, _, err := rjson.ReadUint(append([]byte(nil), data...)); err == nil {
+			tg.u = v
+		}
+	}
 }
 
 func wrap3[T any](v T, p int, err error) (interface{}, int, error) { return v, p, err }
